@@ -107,23 +107,32 @@ func (demuxer *Demuxer) process() {
 			continue
 		}
 
-		packet := p.(*Packet)
-		var err error
-		switch packet.Channel {
-		case ChannelVideo:
-			err = demuxer.vdp.Depacketize(packet)
-		case ChannelVideoControl:
-			err = demuxer.vdp.Control(packet)
-		case ChannelAudio:
-			err = demuxer.adp.Depacketize(packet)
-		case ChannelAudioControl:
-			err = demuxer.adp.Control(packet)
-		}
+		demuxer.depacketize(p.(*Packet))
+	}
+}
 
-		if err != nil {
-			demuxer.logger.Errorf("rtp demuxer: depackeetize rtp frame error :%s", err.Error())
-			// break
+// depacketize 处理一个包；畸形包引起的 panic 只丢弃这个包，转换协程继续处理后续的包
+func (demuxer *Demuxer) depacketize(packet *Packet) {
+	defer func() {
+		if r := recover(); r != nil {
+			demuxer.logger.Errorf("rtp demuxer: malformed packet dropped; r = %v", r)
 		}
+	}()
+
+	var err error
+	switch packet.Channel {
+	case ChannelVideo:
+		err = demuxer.vdp.Depacketize(packet)
+	case ChannelVideoControl:
+		err = demuxer.vdp.Control(packet)
+	case ChannelAudio:
+		err = demuxer.adp.Depacketize(packet)
+	case ChannelAudioControl:
+		err = demuxer.adp.Control(packet)
+	}
+
+	if err != nil {
+		demuxer.logger.Errorf("rtp demuxer: depackeetize rtp frame error :%s", err.Error())
 	}
 }
 
